@@ -185,6 +185,7 @@ def _localise_failure(fx, model, objs, pm, resolved):
     return 'unlocalised', None
 
 
+@common.job
 def _job(job):
     plan, ci, lo, hi = job
     chunks, models = _plan_data(plan)
